@@ -293,6 +293,12 @@ func ServeFile(ctx *RequestContext, path string) {
 	}
 	// path names a file, not a request target: what looks like an escape, a query or a
 	// fragment in it is part of the name
+	//
+	// The request is the client's again afterwards (as FileFromFS does it): middleware
+	// and tracers that run after the handler report the target that was asked for.
+	defer func(target string) {
+		ctx.Request.SetRequestURI(target)
+	}(string(ctx.Request.Header.RequestURI()))
 	ctx.Request.SetRequestURI(escapeFilePath(path))
 	rootFSHandler(context.Background(), ctx)
 }
